@@ -78,7 +78,9 @@ PROPS["C14"] = {
     "assumptions": [],
     "level_text": "Theorems over every reachable state of the unbounded step model: each subscription channel is closed at most once and exactly when the subscription is marked ended; after the end nothing more is delivered and it is not closed again, whatever follows; Unsubscribe returning nil has ended the subscription; what a channel received is a prefix of the payloads sent for its id (delivered_prefix invariant). Tied to the code by the per-step in-kernel replay plus an in-kernel prefix oracle on the observed deliveries.",
     "level_note": "Trusted as for C13. Payload error surfacing is checked by the Go oracle on the real forwarder, not modelled.",
-    "theorem_status": {"C14_closed_at_most_once": "proved", "C14_nothing_after_end": "proved", "C14_unsubscribe_ends": "proved"},
+    "theorem_status": {"C14_closed_at_most_once": "proved", "C14_nothing_after_end": "proved", "C14_unsubscribe_ends": "proved",
+                       "C14_received_is_a_prefix_of_sent": "proved (invariant over every reachable state: received = prefix of sent for the id; the rest dropped after the end, held by the reader or queued)",
+                       "C14_nothing_lost_while_alive": "proved", "C14_witness_delivery": "proved (non-vacuity)"},
 }
 PROPS["C15"] = {
     "coq": ["Properties/C15.v", "Corr/Wscorr.v"],
@@ -177,7 +179,7 @@ PROPS["C10"] = {
     "assumptions": ["documentation transcribed in harness/props/conv/c10.go (docType/effective) for the implementation-side oracle"],
     "level_text": "Theorems over every directive and configuration: the option in force is the first set in the order node, for-entry, operation (typename never inherited from the operation, struct/flatten never via for); nothing above the nearest non-comment line is read for a node; conflicting or unknown options and options in non-applicable places are errors; and for every GraphQL type (any list depth) the Go type produced by convertType is the documented wrapper function of pointer / optional / use_struct_references around the named type (lists -> slices at every depth, pointer on the innermost named type only, bind replaces the whole type). Tied to genqlient_directive.go/convert.go by comparing EVERY emitted declaration of random decorated programs with the full converter model in-kernel, plus an executable transcription of the documentation applied to variables and response fields.",
     "level_note": "Trusted: Coq kernel; hand-written model of genqlient_directive.go and convert.go validated per run on every declaration; JSON-tag theorem not stated separately (covered by the correspondence).",
-    "theorem_status": {"C10_precedence": "proved", "C10_no_leak_past_code_line": "proved", "C10_conflicting_directives_rejected": "proved",
+    "theorem_status": {"C10_json_tag_is_the_response_key": "proved", "C10_precedence": "proved", "C10_no_leak_past_code_line": "proved", "C10_conflicting_directives_rejected": "proved",
                        "C10_unknown_option_rejected": "proved", "C10_omitempty_on_field_rejected": "proved",
                        "C10_omitempty_on_nonnull_variable_rejected": "proved", "C10_bind_on_operation_rejected": "proved",
                        "C10_struct_flatten_via_for_rejected": "proved", "C10_directive_on_fragment_spread_rejected": "proved",
@@ -204,7 +206,9 @@ PROPS["C07"] = {
     "theorem_status": {"C07_used_fragments_terminates": "proved", "C07_directive_add_total": "proved", "C07_directive_scan_total": "proved",
                        "C07_bare_inline_fragment_converts": "proved (fixed finding)",
                        "C07_converter_panics_only_at_flatten_index_sites_partial": "proved (partial: with names resolved no unchecked dereference of the converter is reachable; the flatten index sites remain)",
-                       "C07_converter_hypotheses_satisfiable": "proved (non-vacuity)"},
+                       "C07_converter_hypotheses_satisfiable": "proved (non-vacuity)",
+                       "C07_converter_never_panics": "proved (full: no Panic site of the converter model is reachable on programs of the validated shape, for every configuration, source text and fuel)",
+                       "C07_converter_full_hypotheses_satisfiable": "proved (non-vacuity)"},
 }
 
 PROPS["C01"] = {
@@ -270,5 +274,7 @@ PROPS["C04"] = {
     "theorem_status": {"C04_keys_only_for_declared_variables": "proved", "C04_omitted_exactly_when_marked_and_empty": "proved",
                        "C04_empty_is_the_encoding_json_notion": "proved", "C04_nil_is_null": "proved", "C04_custom_marshaler_exception": "proved",
                        "C04_marshaler_reaches_every_element": "proved", "C04_template_makes_one_request": "proved (translator fact)",
-                       "C04_nil_slice_of_custom_marshaled_refuted": "refuted part of the statement (known finding)"},
+                       "C04_nil_slice_of_custom_marshaled_refuted": "refuted part of the statement (known finding)",
+                       "C04_one_struct_field_per_declared_variable": "proved (convertArguments: one field per declared variable, keyed by its name)",
+                       "C04_no_variables_no_struct": "proved"},
 }
